@@ -320,7 +320,7 @@ func init() {
 			fragments = append(fragments, eff+"; "+bad)
 		}
 	}
-	fragments = append(fragments, "import(\"m1\").x", "import(\"bm\").a", "m := import(\"m1\"); m.f()")
+	fragments = append(fragments, "import(\"m1\").x", "import(\"bm\").a", "m := import(\"m1\"); m.f()", "gq", "gq = 1", "q", "kq", "fq()")
 }
 
 func evalPair(f1, f2 string, noopt bool) (pan any, problem string) {
@@ -334,7 +334,9 @@ func evalPair(f1, f2 string, noopt bool) (pan any, problem string) {
 	defer cancel()
 	for _, f := range []string{f1, f2, "return 1"} {
 		_, bc, err := ev.Run(ctx, []byte(f))
-		if err == nil && bc != nil {
+		_ = err
+		if bc != nil {
+			// compiled (Eval.Run returns the Bytecode also when the run then fails)
 			if p := bcv.Verify(bc); p != "" {
 				return nil, p
 			}
